@@ -133,9 +133,10 @@ def main():
         #  child at the split point, a ghost here -, deepest trees first; then the other splits)
         ck.rng.shuffle(grow)
         hard = sorted([i for i in grow if upper(payloads[i]['to']) > upper(payloads[i]['from']) and P.depth(payloads[i]['from']) >= 2],
-                      key=lambda i: -P.depth(payloads[i]['from']))
+                      key=lambda i: (0 if P.depth(payloads[i]['to']) > P.depth(payloads[i]['from']) else 1,     # root splits first,
+                                     payloads[i]['act']['k']))                                                  # leftmost paths first
         other = [i for i in grow if P.nleaves(payloads[i]['to']) > P.nleaves(payloads[i]['from']) and i not in set(hard)]
-        split = hard[:(40 if quick else 400)] + other
+        split = hard[:(80 if quick else 800)] + other
         deep.append((fn, grow, split, nk, lf, it))
     # 2. fault enumeration on the real C code (hook build), every allocation index of every selected call;
     #    then again on the sanitizer build
@@ -156,9 +157,9 @@ def main():
         # ... inserts on *stored* trees with every node evicted (deep trees from the simulator: splits of interior nodes whose
         #     children are interior nodes, all of them ghosts), and multiunion on both sides of the switch to the radix sort
         for (fn, grow, split, nk, lf, it) in deep:
-            sel = sorted(set(split[:(60 if quick else 600)] + grow[:(30 if quick else 300)]))
+            sel = sorted(set(split[:(100 if quick else 1000)] + grow[:(30 if quick else 300)]))
             if flavour == 'asan':
-                sel = sorted(set(split[:(40 if quick else 400)] + sel[::3]))        # (the hard splits all, a third of the rest)
+                sel = sorted(set(split[:(80 if quick else 800)] + sel[::3]))        # (the hard splits all, a third of the rest)
             for fam in (['II', 'OO'] if quick else ['II', 'OO', 'LF', 'fs', 'QQ']):
                 for is_set in (True, False):
                     plan.append(dict(fam=fam, is_set=is_set, leaf=lf, internal=it, nkeys=nk, dump=fn, indices=sel[(0 if is_set else 1)::2],
